@@ -12,17 +12,28 @@ theorem compileCond_length (c : BExpr) (base t f : Nat) : (compileCond c base t 
   | land a b iha ihb => simp [compileCond, BExpr.size, iha, ihb]
   | lor a b iha ihb => simp [compileCond, BExpr.size, iha, ihb]
 
-theorem compile_length (s : Stmt) (base next brk cont : Nat) :
-    (compile s base next brk cont).length = s.size := by
-  induction s generalizing base next brk cont with
-  | skip => rfl
-  | seq a b iha ihb => simp [compile, Stmt.size, iha, ihb]
-  | assign x e => rfl
-  | print e => rfl
-  | ite c t e iht ihe => simp [compile, Stmt.size, compileCond_length, iht, ihe]; omega
-  | loop c body post ihb ihp => simp [compile, Stmt.size, compileCond_length, ihb, ihp]; omega
-  | brk => rfl
-  | cont => rfl
+mutual
+theorem compile_length : (s : Stmt) → ∀ (base next brk cont : Nat),
+    (compile s base next brk cont).length = s.size
+  | .skip, _, _, _, _ => rfl
+  | .seq a b, base, next, brk, cont => by
+    simp [compile, Stmt.size, compile_length a, compile_length b]
+  | .assign _ _, _, _, _, _ => rfl
+  | .print _, _, _, _, _ => rfl
+  | .ite c t e, base, next, brk, cont => by
+    simp [compile, Stmt.size, compileCond_length, compile_length t, compile_length e]; omega
+  | .loop c body post, base, next, brk, cont => by
+    simp [compile, Stmt.size, compileCond_length, compile_length body, compile_length post]; omega
+  | .brk, _, _, _, _ => rfl
+  | .cont, _, _, _, _ => rfl
+  | .switch cs, base, next, brk, cont => by
+    simp [compile, Stmt.size, compileClauses_length cs]
+theorem compileClauses_length : (cs : Clauses) → ∀ (base next cont : Nat),
+    (compileClauses cs base next cont).length = cs.size
+  | .nil, _, _, _ => rfl
+  | .cons c body fall rest, base, next, cont => by
+    simp [compileClauses, Clauses.size, compileCond_length, compile_length body, compileClauses_length rest]; omega
+end
 
 theorem steps_add (code : List Instr) (m n : Nat) (st : MState) :
     steps code (m + n) st = (steps code m st).bind (steps code n) := by
@@ -173,12 +184,18 @@ def Stmt.simple : Stmt → Bool
   | .print _ => true
   | _ => false
 
+mutual
 /-- well-formed: every loop's post statement is simple (Go's grammar) -/
 def Stmt.wf : Stmt → Bool
   | .seq a b => a.wf && b.wf
   | .ite _ t e => t.wf && e.wf
   | .loop _ body post => body.wf && post.simple && post.wf
+  | .switch cs => cs.wf
   | _ => true
+def Clauses.wf : Clauses → Bool
+  | .nil => true
+  | .cons _ body _ rest => body.wf && rest.wf
+end
 
 /-- where the machine is after a statement that ended with signal `sig` -/
 def target (next brk cont : Nat) : Sig → St → MState
@@ -199,16 +216,135 @@ theorem simple_sig {f : Nat} {p : Stmt} {s s' : St} {sig : Sig} (hs : p.simple =
     · simp only [exec] at h
       split at h <;> simp at h <;> simp [← h.1]
 
-/-- **simulation**: every big-step execution is reproduced step by step by the compiled graph -/
-theorem sim (code : List Instr) : ∀ (fuel : Nat) (p : Stmt) (s s' : St) (sig : Sig) (base next brk cont : Nat),
+/-- simulation statement for statements, at a given amount of fuel -/
+def SimStmt (code : List Instr) (fuel : Nat) : Prop :=
+  ∀ (p : Stmt) (s s' : St) (sig : Sig) (base next brk cont : Nat),
     p.wf = true →
     exec fuel p s = some (sig, s') →
     Embeds code (compile p base next brk cont) base →
-    ∃ n, steps code n (.run base s) = some (target next brk cont sig s') := by
+    ∃ n, steps code n (.run base s) = some (target next brk cont sig s')
+
+/-- … for the clause list of a switch entered at its first test (`break` leaves the switch) -/
+def SimClauses (code : List Instr) (fuel : Nat) : Prop :=
+  ∀ (cs : Clauses) (s s' : St) (sig : Sig) (base next cont : Nat),
+    cs.wf = true →
+    execClauses fuel cs s = some (sig, s') →
+    Embeds code (compileClauses cs base next cont) base →
+    ∃ n, steps code n (.run base s) = some (target next next cont sig s')
+
+/-- … and entered at the body of its first clause (after a `fallthrough`) -/
+def SimFall (code : List Instr) (fuel : Nat) : Prop :=
+  ∀ (cs : Clauses) (s s' : St) (sig : Sig) (base next cont : Nat),
+    cs.wf = true →
+    execFall fuel cs s = some (sig, s') →
+    Embeds code (compileClauses cs base next cont) base →
+    ∃ n, steps code n (.run (cs.bodyStart base) s) = some (target next next cont sig s')
+
+/-- the body of a selected clause, then either the exit of the switch or the next body -/
+theorem clause_body (code : List Instr) (f : Nat) (hS : SimStmt code f) (hF : SimFall code f)
+    (c : BExpr) (body : Stmt) (fall : Bool) (rest : Clauses) (s s' : St) (sig : Sig) (base next cont : Nat)
+    (hwb : body.wf = true) (hwr : rest.wf = true)
+    (hemb : Embeds code (compileClauses (.cons c body fall rest) base next cont) base)
+    (h : (match exec f body s with
+          | some (.normal, s1) => if fall then execFall f rest s1 else some (.normal, s1)
+          | r => r) = some (sig, s')) :
+    ∃ n, steps code n (.run (base + c.size) s) = some (target next next cont sig s') := by
+  simp only [compileClauses] at hemb
+  have hbody := hemb.left.right
+  have hrest := hemb.right
+  rw [compileCond_length] at hbody
+  rw [List.length_append, compileCond_length, compile_length, ← Nat.add_assoc] at hrest
+  cases hx : exec f body s with
+  | none => simp [hx] at h
+  | some r =>
+    obtain ⟨sg, s1⟩ := r
+    obtain ⟨n1, hn1⟩ := hS body s s1 sg (base + c.size)
+      (if fall then rest.bodyStart (base + c.size + body.size) else next) next cont hwb hx hbody
+    cases sg with
+    | normal =>
+      simp only [hx] at h
+      cases fall with
+      | true =>
+        simp only [if_true] at h hn1
+        obtain ⟨n2, hn2⟩ := hF rest s1 s' sig (base + c.size + body.size) next cont hwr h hrest
+        exact ⟨n1 + n2, steps_trans (by simpa [target] using hn1) hn2⟩
+      | false =>
+        simp only [Bool.false_eq_true, if_false, Option.some.injEq, Prod.mk.injEq] at h hn1
+        obtain ⟨rfl, rfl⟩ := h
+        exact ⟨n1, by simpa [target] using hn1⟩
+    | brk =>
+      simp only [hx, Option.some.injEq, Prod.mk.injEq] at h
+      obtain ⟨rfl, rfl⟩ := h
+      exact ⟨n1, by simpa [target] using hn1⟩
+    | cont =>
+      simp only [hx, Option.some.injEq, Prod.mk.injEq] at h
+      obtain ⟨rfl, rfl⟩ := h
+      exact ⟨n1, by simpa [target] using hn1⟩
+    | panic =>
+      simp only [hx, Option.some.injEq, Prod.mk.injEq] at h
+      obtain ⟨rfl, rfl⟩ := h
+      exact ⟨n1, by simpa [target] using hn1⟩
+
+/-- **simulation**: every big-step execution is reproduced step by step by the compiled graph -/
+theorem sim_all (code : List Instr) : ∀ (fuel : Nat), SimStmt code fuel ∧ SimClauses code fuel ∧ SimFall code fuel := by
   intro fuel
   induction fuel with
-  | zero => intro p s s' sig base next brk cont _ h; simp [exec] at h
-  | succ f ih =>
+  | zero =>
+    refine ⟨?_, ?_, ?_⟩
+    · intro p s s' sig base next brk cont _ h; simp [exec] at h
+    · intro cs s s' sig base next cont _ h; simp [execClauses] at h
+    · intro cs s s' sig base next cont _ h; simp [execFall] at h
+  | succ f ihall =>
+    obtain ⟨ih, ihC, ihF⟩ := ihall
+    refine ⟨?_, ?_, ?_⟩
+    rotate_left
+    · -- clauses entered at the first test
+      intro cs s s' sig base next cont hwf h hemb
+      cases cs with
+      | nil =>
+        simp only [execClauses, Option.some.injEq, Prod.mk.injEq] at h
+        obtain ⟨rfl, rfl⟩ := h
+        have hc := Embeds.head (by simpa [compileClauses] using hemb)
+        exact ⟨1, by simp [steps, step, hc, target]⟩
+      | cons c body fall rest =>
+        simp only [Clauses.wf, Bool.and_eq_true] at hwf
+        have hemb0 := hemb
+        simp only [compileClauses] at hemb
+        have hcnd := hemb.left.left
+        have hrest := hemb.right
+        rw [List.length_append, compileCond_length, compile_length, ← Nat.add_assoc] at hrest
+        obtain ⟨c1, c2⟩ := cond_sim code s c base (base + c.size) (base + c.size + body.size) hcnd
+        simp only [execClauses] at h
+        cases hc : c.eval s with
+        | none =>
+          simp only [hc, Option.some.injEq, Prod.mk.injEq] at h
+          obtain ⟨rfl, rfl⟩ := h
+          exact c2 hc
+        | some v =>
+          obtain ⟨n1, hn1⟩ := c1 v hc
+          cases v with
+          | false =>
+            simp only [hc] at h
+            obtain ⟨n2, hn2⟩ := ihC rest s s' sig (base + c.size + body.size) next cont hwf.2 h hrest
+            exact ⟨n1 + n2, steps_trans (by simpa using hn1) hn2⟩
+          | true =>
+            simp only [hc] at h
+            obtain ⟨n2, hn2⟩ := clause_body code f ih ihF c body fall rest s s' sig base next cont hwf.1 hwf.2 hemb0 h
+            exact ⟨n1 + n2, steps_trans (by simpa using hn1) hn2⟩
+    · -- clauses entered at the first body (fallthrough)
+      intro cs s s' sig base next cont hwf h hemb
+      cases cs with
+      | nil =>
+        simp only [execFall, Option.some.injEq, Prod.mk.injEq] at h
+        obtain ⟨rfl, rfl⟩ := h
+        have hc := Embeds.head (by simpa [compileClauses] using hemb)
+        exact ⟨1, by simp [steps, step, hc, target, Clauses.bodyStart]⟩
+      | cons c body fall rest =>
+        simp only [Clauses.wf, Bool.and_eq_true] at hwf
+        simp only [execFall] at h
+        simpa [Clauses.bodyStart] using
+          clause_body code f ih ihF c body fall rest s s' sig base next cont hwf.1 hwf.2 hemb h
+    -- statements
     intro p s s' sig base next brk cont hwf h hemb
     cases p with
     | skip =>
@@ -380,5 +516,38 @@ theorem sim (code : List Instr) : ∀ (fuel : Nat) (p : Stmt) (s s' : St) (sig :
             | cont =>
               simp only [hx] at h
               exact post_case (Or.inr rfl) h
+    | switch cs =>
+      simp only [Stmt.wf] at hwf
+      simp only [compile] at hemb
+      simp only [exec] at h
+      cases hx : execClauses f cs s with
+      | none => simp [hx] at h
+      | some r =>
+        obtain ⟨sg, s1⟩ := r
+        obtain ⟨n1, hn1⟩ := ihC cs s s1 sg base next cont hwf hx hemb
+        cases sg with
+        | brk =>
+          simp only [hx, Option.some.injEq, Prod.mk.injEq] at h
+          obtain ⟨rfl, rfl⟩ := h
+          exact ⟨n1, by simpa [target] using hn1⟩
+        | normal =>
+          simp only [hx, Option.some.injEq, Prod.mk.injEq] at h
+          obtain ⟨rfl, rfl⟩ := h
+          exact ⟨n1, by simpa [target] using hn1⟩
+        | cont =>
+          simp only [hx, Option.some.injEq, Prod.mk.injEq] at h
+          obtain ⟨rfl, rfl⟩ := h
+          exact ⟨n1, by simpa [target] using hn1⟩
+        | panic =>
+          simp only [hx, Option.some.injEq, Prod.mk.injEq] at h
+          obtain ⟨rfl, rfl⟩ := h
+          exact ⟨n1, by simpa [target] using hn1⟩
+
+/-- statements (the form used by the property theorems) -/
+theorem sim (code : List Instr) (fuel : Nat) (p : Stmt) (s s' : St) (sig : Sig) (base next brk cont : Nat)
+    (hwf : p.wf = true) (h : exec fuel p s = some (sig, s'))
+    (hemb : Embeds code (compile p base next brk cont) base) :
+    ∃ n, steps code n (.run base s) = some (target next brk cont sig s') :=
+  (sim_all code fuel).1 p s s' sig base next brk cont hwf h hemb
 
 end YaegiVerif.Core
